@@ -217,6 +217,23 @@ def job(a):
                 if m_.pointer() != n:
                     bad("pointer-after-reset", key, 0, n, None, "ptr=%r after reset() + %d octets" % (m_.pointer(), n), b"", b"")
                 evals += 1
+                # the payload handed over as a mutable buffer (bytearray / memoryview of one, as the
+                # streaming send API allows): same result, and the caller's buffer is left as it was
+                if off == 0:
+                    for wrap in ("bytearray", "memoryview"):
+                        buf = bytearray(data)
+                        arg = buf if wrap == "bytearray" else memoryview(buf)
+                        p3, _ = _make(impl, key, n)
+                        try:
+                            got3 = bytes(p3(arg))
+                        except TypeError:
+                            continue        # an implementation may insist on bytes
+                        if got3 != exp:
+                            bad("xor", key, 0, n, None, wrap + " input", got3, exp)
+                        if bytes(buf) != data:
+                            bad("input-buffer-altered", key, 0, n, None, wrap + " input was modified in place",
+                                bytes(buf), data)
+                        evals += 1
     if a["lengths"]:
         n = a["lengths"][-1]
         samples.append({"impl": impl, "len": n, "key": keys(seed)[2].hex(), "start_offset": 3,
